@@ -12,6 +12,46 @@ CLAIMED = {
             "Every generated input (valid in three renderings, mutated, spliced, repository fixtures, arbitrary) is parsed once the way the unit tests do (single read) and once through a generated feed (1-byte reads, short reads, Interrupted, chunk 1..64/4096/default, from_buf_reader); the item sequences and the final outcome including error location and message must be identical. 120k pairs quick / 3M thorough plus long documents that realign with 1000/4096/16384-byte chunks.",
             "Trusts the scheduled source; a panic occurring identically in both runs is left to C05.",
             "DESIGN.md section 4, C01"),
+    "C03": ("exploration",
+            "round-trip property-based testing: parse(write(v)) == v over generated values of every writer's domain (all three AIGER writers, huge binary input counts, constructor-candidate BTOR2 constants) and parse(write(parse(t))) == parse(t) over accepted generated texts",
+            "Generated abstract values for DIMACS (5 literal types), AIGER (5 literal types, arbitrary numbering, every section and symbol kind) and BTOR2 (every operator and constant form through the public constructors) are written with the crate's writers and parsed back through the streaming and the collecting APIs, one-shot and re-chunked; every accepted text from the input generators is rewritten from its parsed value and parsed again. Generator feature classes (each latch reset form, symbol kind, operator, 9+-byte delta codes, ...) must all occur, otherwise the run is inconclusive.",
+            "The value domain is stated in the rule; structural equality is on owned mirrors of the crate's value types (harness/src/drivers.rs, btor.rs).",
+            "DESIGN.md section 4, C03"),
+    "C04": ("fault_enumeration",
+            "fault injection with complete enumeration of fault offsets: for each generated (parser, input, chunking, error kind) the source fails after k bytes for every k in 0..=len; oracle = fault-free run of the same parser",
+            "For every generated input up to 256 bytes all fault offsets are enumerated (64 spread offsets above that) under a generated chunking and error kind; the items handed out must be a prefix of the fault-free items, a delivered error must surface as exactly that I/O error (never a clean end or a syntax error), and a run that never requested the error must equal the fault-free run. About 490k (input, offset) pairs in the quick tier.",
+            "The fault-free run is the item reference; inputs are sampled, offsets per input are complete up to 256 bytes.",
+            "DESIGN.md section 4, C04"),
+    "C06": ("exploration",
+            "property-based differential testing against independent reference readers (line split, whitespace tokens, wide decimals, 7-bit groups) on boundary-number and single-limit-violation documents",
+            "Valid documents with numbers replaced by boundary values relative to the literal type and the declared header values, documents with exactly one declared-limit violation, and all other input classes are parsed under a generated feed; an independent reader classifies each text as must-reject, accept-with-these-items or undecided. An accepted text must not be must-reject and the returned numbers must equal the reader's; for BTOR2 every returned line re-rendered must equal the text line.",
+            "Trusts harness/src/refs.rs; undecided texts give no verdict (counted in the evidence).",
+            "DESIGN.md section 4, C06"),
+    "C07": ("exploration",
+            "metamorphic/oracle property-based testing: abstract values rendered through a layout grammar driven by a generated choice stream must parse back to the abstract value, one-shot and re-chunked",
+            "Abstract cnf/wcnf/gcnf formulas and solver logs are rendered by an independent renderer that exercises every granted layout choice (whitespace, CRLF, blank and comment lines incl. inside split clauses, clause splits, leading zeros, -0, missing final newline; split value lines, empty value lines, junk lines) in generated combinations; the parsed value must equal the abstract value. The evidence carries per-feature and per-pair hit counts.",
+            "The layout grammar only contains documented/tested choices; trusts the renderer in harness/src/gen.rs.",
+            "DESIGN.md section 4, C07"),
+    "C08": ("exploration",
+            "property-based testing of error locations: bounds predicate over all rejected generated inputs, and exact-place predicate for single-token corruptions from a catalogue using the renderer's token map",
+            "Part A checks line/column bounds of every syntax error produced by the input generators under generated feeds (binary AIGER gate sections excluded from line splitting by an independent decoder). Part B corrupts exactly one token of a well-formed document (14 catalogue entries) and requires the reported line to be the token's line and the column to lie on the token, one-shot and re-chunked.",
+            "Trusts the token map of the reference renderer; only unambiguous corruptions are in the catalogue.",
+            "DESIGN.md section 4, C08"),
+    "C09": ("exploration",
+            "property-based testing with a line-bounded scripted source and a delivered-byte counter sampled when each item is returned; stateful reader histories with a read-call accounting oracle",
+            "Part 1 delivers layout-rendered documents to the six streaming parsers through a source that never returns more than the rest of the current line (binary: current gate) and requires each item to be handed out before any byte beyond its completing line has been pulled. Part 2 runs generated reader histories and checks that reads are only issued when needed, exactly one per refill, retried on Interrupted, sized 1..chunk, and never after the terminal result.",
+            "Decided for line-bounded delivery as the property states; trusts the token map and the source log.",
+            "DESIGN.md section 4, C09"),
+    "C10": ("exploration",
+            "parameter sweep drawn by proptest over (parser, chunk size, read size, max item size) with on-the-fly generated streams of >= 64 x bound bytes and a counting global allocator measuring peak live heap",
+            "Each configuration streams tens of MiB (thorough: up to 1 GiB for 1 MiB chunks) that are never materialised through a streaming parser; the peak live heap must stay below 16 x chunk + 16 x max item + 64 KiB and the stream must parse to a clean end with the generated number of items.",
+            "Bound constants are judgement calls (DESIGN.md); quick tier caps the stream at 48 MiB per configuration.",
+            "DESIGN.md section 4, C10"),
+    "C12": ("exploration",
+            "property-based testing with an independent 64-bit parallel simulator (exhaustive truth tables up to 6 variables, 256 random patterns above), structural predicate, binary write/parse acceptance, injected single defects, deep graphs under a CPU watchdog",
+            "Generated well-formed AIGs (arbitrary numbering and gate order, constants, negations, duplicate and dangling gates, every root section) are renumbered under all 8 option combinations and three literal types; structure, functional equivalence of every root and of the literal map, preserved resets and binary codec acceptance are checked. AIGs with exactly one injected cycle, undefined literal or double definition must yield the matching error when the defect matters. Chains/trees up to 10^6 gates check termination (worker CPU watchdog, crash = violation).",
+            "Random simulation above 6 variables; trusts the simulator in harness/src/props/c12.rs.",
+            "DESIGN.md section 4, C12"),
     "C05": ("exploration",
             "robustness fuzzing with a structured generator (grammar, mutation, hostile headers, arbitrary bytes) in isolated worker processes with a counting global allocator, CPU watchdog and crash attribution; two build profiles",
             "300k (quick) / 5M (thorough) inputs per run over all nine parser entry points, five literal types and both configs, in a build with overflow checks and debug assertions and in a release build. Oracle: the result is a value (no panic, signal, abort, CPU-limit hit) and the peak heap during the parse is at most 128 x delivered bytes + 256 KiB, measured by a counting allocator; a worker that dies is attributed to the case it was running and reported with a replay file.",
